@@ -442,6 +442,8 @@ class FaultWorld(World):
 
             def __setattr__(self, name, value):
                 object.__setattr__(self, name, value)
+                if name == "total_outbufs_len" and value > 0 and self._bufs_closed:
+                    note("append_after_close", world.fd_of(self))
                 if name == "total_outbufs_len" and value == 0 and self._in_hclose and tname() in self._in_hclose:
                     object.__setattr__(self, "_bufs_closed", True)
                     left = sum(b.__len__() for b in self.outbufs)
@@ -600,7 +602,7 @@ def _blocks(world):
     return out
 
 
-MODEL_NOTES = {"hclose", "bufs_closed", "map_del", "act_del", "close", "wire", "send_continue", "write_soon",
+MODEL_NOTES = {"append_after_close", "hclose", "bufs_closed", "map_del", "act_del", "close", "wire", "send_continue", "write_soon",
                "task_done", "task_exc", "app_raise", "parsed", "recv_ans", "send_ans", "soerr_ans", "selected",
                "io_loop_died", "select_ebadf"}
 
@@ -642,6 +644,8 @@ def notes_to_model(notes, tid, items):
         elif nk == "bufs_closed":
             answers.append("bl:%d" % nd[1])
             labels.append("bufs:%s:%s" % (tid, FDS[nd[0]]))
+        elif nk == "append_after_close":
+            answers.append("k1")
         elif nk == "write_soon":
             answers.append("aw:%d" % nd[1])
         elif nk == "task_done":
